@@ -51,6 +51,10 @@ def variant(rng, text, mode, WS_RUNS=WS_RUNS, p_ins=0.6):
                     s = randcase(rng, raw)
                 else:
                     s = randcase(rng, raw)
+        elif ty == "ODATA_IDENTIFIER" and raw.lower() == "not" and nxt == "(":
+            # `not(` (the keyword glued to a parenthesis) is not in today's grammar; a tree that accepts it as the operator must accept NOT( / Not( alike
+            if mode in ("case", "all"):
+                s = raw.upper() if raw != raw.upper() else raw.title()
         elif ty == "GEOGRAPHY":
             if mode in ("case", "all"):
                 s = randcase(rng, raw[:9]) + raw[9:]
@@ -137,6 +141,10 @@ def run(ctx):
                    "geo.intersects(geo1, geography'POINT(1  2)')", "s1 eq 'a  AND  b' and i1 eq 1", "concat(s1, '  ') eq 'a  ' and not (s1 eq 'NOT  x')",
                    "kids/any(k: k/s eq 'p  q')", "f.g(p='a  b', q=s1)", "s1 eq 'it''s  ok'"]
     base += WS_LITERALS
+    # spellings just outside today's grammar (a keyword glued to a parenthesis, an operator without blanks ...): rejected filters are skipped, but IF one is
+    # accepted then all its re-spellings must be accepted alike
+    base += ["not(i1 gt 5)", "not(contains(s1,'a'))", "i1 eq 1 and not(b1 eq true)", "(i1 eq 1)and(b1 eq true)", "(i1 eq 1)or(i1 eq 2)", "i1 in(1,2)", "kids/any (k: k/x eq 1)", "f.g (1)",
+             "i1 eq 1 and(b1 eq true)", "not(i1 in (1, 2))", "not (i1 eq 1)or b1 eq true", "true and not(false)", "i1 add(2) eq 3", "null eq(s1)"]
     # LONG filters (hundreds of clauses, thousands of tokens): a re-layout changes the number of whitespace tokens by a large factor, never the meaning
     LONG = [" or ".join(f"i1 in ({i},{i + 1})" for i in range(n)) for n in (100, 240, 300)] + \
            [" and ".join(f"concat(s1,'{i}') ne 'x{i}'" for i in range(200)), "i1 in (" + ",".join(str(i) for i in range(1500)) + ")",
